@@ -267,6 +267,7 @@ def _drive(case, q, tr, fs, t0):
 
     q.connect(on_added, 'added')
     q.connect(on_removed, 'removed')
+    pending = []
     for i, st in enumerate(case['stims']):
         src, n, dur, ref = make_source(st, i, fs)
         tr.lens.append(n)
@@ -280,10 +281,16 @@ def _drive(case, q, tr, fs, t0):
             # the caller declares a duration longer than the waveform (append(..., duration=...))
             dur = dur + st['xdur']
             tr.durs[-1] = dur
-            keys.append(q.append(src, st['trials'], delays=delays, duration=dur / fs))
+        declared = dur / fs if st.get('xdur') else None
+        build = case.get('build')      # how the caller fills the queue: append() each, extend() all, or a mixture
+        if build == 'extend' or (build == 'mixed' and i > 0):
+            pending.append((src, st['trials'], delays, declared))
         else:
-            keys.append(q.append(src, st['trials'], delays=delays))
+            keys.append(q.append(src, st['trials'], delays=delays, duration=declared))
         tr.lines.append(f'ok {i}')
+    if pending:
+        keys.extend(q.extend([p[0] for p in pending], [p[1] for p in pending], delays=[p[2] for p in pending],
+                             duration=[p[3] for p in pending]))
 
     dead = False
     for op in case['ops']:
@@ -400,6 +407,9 @@ POLICIES = ['fifo', 'interleaved', 'interleaved-nokeep', 'random', 'blockedrando
 
 def policy_fields(name, rng, nstim):
     d = {'policy': name, 'keep': 1, 'gsize': 0, 'seed': rng.randint(0, 1000)}
+    b = rng.choice([None, None, None, 'extend', 'mixed'])
+    if b:
+        d['build'] = b
     if name == 'interleaved-nokeep':
         d.update(policy='interleaved', keep=0)
     if name == 'grouped':
